@@ -105,7 +105,7 @@ class Stats(object):
             self.labels[lab] += 1
         if out.status == "known":
             self.known[out.kf] += 1
-            if os.environ.get("VF_SAVE_KNOWN"):
+            if os.environ.get("VF_SAVE_KNOWN") or out.kf not in self.known_cases:
                 size = len(json.dumps(case, default=str))
                 cur = self.known_cases.get(out.kf)
                 if cur is None or size < cur[0]:
@@ -401,8 +401,14 @@ def run(pid, tier="quick", seed=1, replay=None):
 
     fuzz_info = run_fuzz_supplement(pid, mod, tier, seed, tot)
 
+    listed = {f["id"] for f in load_known(pid) if f.get("status") == "known"}
     for k, (size, kcase, kdetail) in tot["known_cases"].items():
-        write_replay(pid, kcase, kdetail, tier, seed, prefix="CAND-" + k)
+        if os.environ.get("VF_SAVE_KNOWN"):
+            write_replay(pid, kcase, kdetail, tier, seed, prefix="CAND-" + k)
+        if k not in listed and not getattr(mod, "SURVEY", False):
+            # a case was excused under a finding that known_findings.json does not list for this property: not excused
+            tot["failures"].append((size, kcase, "classified as %s, which known_findings.json does not list for %s: %s" % (k, pid, kdetail)))
+            tot["failures"].sort(key=lambda x: x[0])
     if tot["errors"]:
         print("HARNESS-ERROR in %s:\n%s" % (pid, "\n".join(tot["errors"][:3])))
         return 2
